@@ -257,6 +257,17 @@ def rim(seed):
     return es, vs, truth
 
 
+def hard(seed):
+    """SE(2) graph in which one information matrix has an infinite entry (a "hard" constraint component) and another one a NaN: chi^2 and
+    the optimizer are useless there, but every query must still leave the stored numbers alone."""
+    es, vs, truth = make('SE2', seed, fixed=(1,))
+    es[2].information = es[2].information.copy()
+    es[2].information[0, 0] = np.inf
+    es[4].information = es[4].information.copy()
+    es[4].information[1, 1] = np.nan
+    return es, vs, truth
+
+
 def negated(seed):
     """SE(3) graph in which every other measurement, vertex and offset quaternion is stored with a NEGATIVE scalar part (the same rotations)."""
     es, vs, truth = make('SE3', seed)
@@ -272,6 +283,7 @@ def negated(seed):
 
 
 TEMPLATES = {
+    'se2hard': hard,
     'se2rim': rim,
     'se3neg': negated,
     'se3rough': rough,
